@@ -343,6 +343,43 @@ func c17Present(gs []c17Goroutine, p c17Ptrs) []string {
 	return out
 }
 
+// c17BlockedInReport: the dump shows this watcher's watchLoop goroutine parked
+// (channel send or select) with one of dials' (*watchArgs).Report* methods as
+// its innermost frame, and no monitor goroutine of this Dials (recognised by
+// its context) exists any more. The report channel has exactly one receiver,
+// the monitor, so in that state the hand-over can never complete.
+func c17BlockedInReport(gs []c17Goroutine, p c17Ptrs) (string, bool) {
+	found := ""
+	for _, g := range gs {
+		if c17HasCtxFrame(g.body, ").monitor(", p.ctx) {
+			return "", false
+		}
+		if c17HasFrame(g.body, "sources/file.(*WatchingSource).watchLoop", p.ws) {
+			if c17InReportFrame(g) && (strings.HasPrefix(g.state, "chan send") || strings.HasPrefix(g.state, "select")) {
+				found = g.state + " @ " + g.top
+			}
+		}
+	}
+	return found, found != ""
+}
+
+// c17InReportFrame: the goroutine's innermost frame is a report method of
+// dials' WatchArgs implementation.
+func c17InReportFrame(g c17Goroutine) bool {
+	return strings.Contains(g.top, "dials.(*watchArgs).Report") || strings.Contains(g.top, "dials.(*watchArgs).BlockingReport")
+}
+
+// c17WatchLoopState returns state and innermost frame of this watcher's
+// watchLoop goroutine ("" when it is not in the dump).
+func c17WatchLoopState(gs []c17Goroutine, p c17Ptrs) (c17Goroutine, bool) {
+	for _, g := range gs {
+		if c17HasFrame(g.body, "sources/file.(*WatchingSource).watchLoop", p.ws) {
+			return g, true
+		}
+	}
+	return c17Goroutine{}, false
+}
+
 // ---- inotify descriptors ---------------------------------------------------
 
 func c17CountInotify() int {
